@@ -7,7 +7,7 @@ mkdir -p ../run/cover
 for d in c[0-9][0-9]; do
   for run in TestCheck TestStress; do
     grep -q "func $run" $d/*_test.go 2>/dev/null || continue
-    VERIF_TIER=quick VERIF_SHARD=1 VERIF_NSHARDS=8 VERIF_OUT=../run/cover/$d.$run.json VERIF_STAGE=cover \
+    VERIF_TIER=quick VERIF_SHARD=3 VERIF_NSHARDS=7 VERIF_OUT=../run/cover/$d.$run.json VERIF_STAGE=cover \
       go1.26.8 test -tags verif -vet=off -count=1 -run "^$run\$" -coverpkg=github.com/insomniacslk/dhcp/... -coverprofile=../run/cover/$d.$run.out ./$d > ../run/cover/$d.$run.log 2>&1 || echo "$d $run failed"
   done
 done
